@@ -124,8 +124,10 @@ func (d *ScalarDom) Convert(in *Interp, x Val, from, to types.Type, pos ssa.Inst
 	in.Undecided(pos, "scalar domain: conversion of %T", x)
 	return nil
 }
-func (d *ScalarDom) Branch(in *Interp, cond Val, site *ssa.If) (bool, bool, bool) { return false, false, false }
-func (d *ScalarDom) Assume(in *Interp, cond Val, truth bool, site *ssa.If)         {}
+func (d *ScalarDom) Branch(in *Interp, cond Val, site *ssa.If) (bool, bool, bool) {
+	return false, false, false
+}
+func (d *ScalarDom) Assume(in *Interp, cond Val, truth bool, site *ssa.If) {}
 
 func (d *ScalarDom) GlobalValue(in *Interp, g *ssa.Global) (Val, bool) {
 	v, ok := d.Globals[g.Name()]
